@@ -23,6 +23,11 @@ fn main() {
         usage();
     }
     let id = args[1].to_uppercase();
+    if id == "C10CHILD" {
+        let seed: u64 = args.get(2).and_then(|s| s.parse().ok()).unwrap_or(0);
+        let n: usize = args.get(3).and_then(|s| s.parse().ok()).unwrap_or(0);
+        std::process::exit(props::c10::child_main(seed, n));
+    }
     let mut tier = match std::env::var("VERIF_TIER").as_deref() {
         Ok("thorough") => Tier::Thorough,
         _ => Tier::Quick,
